@@ -110,10 +110,16 @@ def check_one(lnt, text, add, res):
             if x.is_type("whitespace")
         ]
         split_ws = len(ws) != len(set(ws))
+        from vf.props import tplfam
 
-        def add_pos(c, f, d, _vi=vi, _sw=split_ws):
-            if _sw and c in ("child_order", "child_overlap", "hull_source", "hull_templated"):
-                f = dict(f, tree_has_split_whitespace=True)
+        spans = tplfam.token_spans_slices(variant.templated_file, tree.raw_segments)
+
+        def add_pos(c, f, d, _vi=vi, _sw=split_ws, _sp=spans):
+            if c in ("child_order", "child_overlap", "hull_source", "hull_templated"):
+                if _sw:
+                    f = dict(f, tree_has_split_whitespace=True)
+                if _sp:
+                    f = dict(f, tree_has_token_spanning_template_slices=True)
             add(c, f, dict(d, variant=_vi))
 
         walk(tree, True, add_pos, st)
